@@ -50,7 +50,8 @@ def required(tier):
     cl = [f'geom:{k}' for k in KINDS] + [
         'probe:location-interior', 'probe:location-at-waypoint', 'probe:step==location',
         'probe:overstep', 'probe:overstep-from-beyond-end', 'probe:refused-out-of-range', 'probe:refused-negative',
-        'probe:multi-waypoint', 'mission:gc_distance', 'mission:symmetric',
+        'probe:multi-waypoint', 'mission:gc_distance', 'mission:symmetric', 'mission:built:direct',
+        'mission:built:from_toml', 'mission:built:from_query_result',
         'oracle:vincenty', 'oracle:closure-only']
     return {'classes': cl, 'evaluations': 3000}
 
@@ -324,6 +325,7 @@ def missions(spec, rec):
     import pandas as pd
 
     from AEIC.missions import Mission
+    from AEIC.missions.query import QueryResult
     from AEIC.trajectories.ground_track import GroundTrack
     from vlib import geodesy as G
     from vlib import world
@@ -338,13 +340,35 @@ def missions(spec, rec):
         t0 = pd.Timestamp('2024-09-01T12:00:00Z')
         for _ in range(60):
             a, b = rng.sample(codes, 2)
-            m1 = Mission(a, b, t0, t0, 0.8, 'B738')
-            m2 = Mission(b, a, t0, t0, 0.8, 'B738')
+            how = rng.choice(['direct', 'from_toml', 'from_query_result'])
+
+            def build(o, d_):
+                if how == 'direct':
+                    return Mission(o, d_, t0, t0, 0.8, 'B738')
+                if how == 'from_toml':
+                    return Mission.from_toml({'flight': [dict(
+                        origin=o, destination=d_, departure='2024-09-01T12:00:00',
+                        arrival='2024-09-01T15:00:00', load_factor=0.8,
+                        aircraft_type='B738')]})[0]
+                # a schedule-database row: its distance column is the *stated* distance in
+                # whole km (here off by up to 10 %), not the geodesic
+                g = G.inverse(w[o]['lat'], w[o]['lon'], w[d_]['lat'], w[d_]['lon'])
+                stated = int(round((g[0] if g else 5e6) / 1000.0 * rng.uniform(0.9, 1.1))) + 1
+                return Mission.from_query_result(QueryResult(
+                    departure=t0, arrival=t0, carrier='XX', flight_number='1', origin=o,
+                    origin_country='US', destination=d_, destination_country='US',
+                    service_type='J', aircraft_type='738', engine_type=None, distance=stated,
+                    seat_capacity=150, id=rng.randint(1, 10**6), flight_id=7),
+                    load_factor=rng.uniform(0.5, 1.0))
+            m1 = build(a, b)
+            m2 = build(b, a)
+            rec.cls(f'mission:built:{how}')
             rec.ev(2)
             gt = GroundTrack.great_circle(m1.origin_position.location,
                                           m1.destination_position.location)
             ref = G.inverse(w[a]['lat'], w[a]['lon'], w[b]['lat'], w[b]['lon'])
-            case = {'origin': a, 'destination': b, 'o': w[a], 'd': w[b], 'k': 'missions'}
+            case = {'origin': a, 'destination': b, 'o': w[a], 'd': w[b], 'k': 'missions',
+                    'built': how}
             try:
                 if ref is not None and ref[3] <= 40:
                     exp = ref[0]
